@@ -691,6 +691,10 @@ def declared_events(d):
     return out
 
 
+def _never(*args, **kwargs):
+    return False
+
+
 class EmptyListener:
     """A listener without a single callback (module-level: machines that carry one can still be pickled)."""
 
@@ -730,6 +734,7 @@ class Built:
         attrs = {}
         by_prov = {}
         funcs = {}
+        inst_attrs = {}
         for c, cb in enumerate(d["cbs"], start=1):
             method, function = make_callback(rt, c, cb)
             if d.get("collide_qualnames") and not isinstance(method, property):
@@ -742,11 +747,18 @@ class Built:
                 if not isinstance(method, property):
                     method.__qualname__ = f"{owner}.{cb['name']}"
                 function.__qualname__ = f"mod_{_class_counter[0]}.{cb['name']}"
+            if d.get("anon_callables") and cb["style"] == "callable" and not cb.get("alias"):
+                # callables that are all CALLED the same (lambdas, closures of one factory): each is its own object
+                function.__name__ = "<lambda>"
+                function.__qualname__ = f"mod_{_class_counter[0]}.<lambda>"
             funcs[c] = (method, function)
             style = cb["style"]
             if style == "event":
                 continue
-            if style in ("name", "convention", "property"):
+            if cb.get("inst_attr") and cb["prov"] == "sm" and style in ("name", "convention") and not cb.get("alias"):
+                # the machine keeps this callback as a plain INSTANCE attribute, set in __init__ before super().__init__()
+                inst_attrs[cb["name"]] = method
+            elif style in ("name", "convention", "property"):
                 by_prov.setdefault(cb["prov"], {})[cb["name"]] = method
             elif style in ("method", "decorator"):
                 by_prov.setdefault("sm", {})[cb["name"]] = method
@@ -874,6 +886,15 @@ class Built:
                 attrs[ev] = acc
         for name, fn in by_prov.get("sm", {}).items():
             attrs[name] = fn
+        if inst_attrs:
+            import types as _t
+            parent = self.base.cls if self.base is not None else StateMachine
+
+            def __init__(self_, *a, _items=tuple(inst_attrs.items()), _parent=parent, **k):
+                for name, fn in _items:
+                    setattr(self_, name, _t.MethodType(fn, self_))
+                _parent.__init__(self_, *a, **k)
+            attrs["__init__"] = __init__
         attrs["__module__"] = "vmod"
         name = clsname
         kwargs = {"strict_states": True} if d.get("strict") else {}
@@ -913,6 +934,14 @@ class Built:
                 methods["__len__"] = lambda self_: 0
             elif kind == "falsy_bool":
                 methods["__bool__"] = lambda self_: False
+            elif kind == "reset_on_copy":
+                # "a copy of a ticket is a new ticket": copies (deepcopy, pickle) come back without the state field
+                def _getstate(self_, _f=state_field):
+                    st = dict(self_.__dict__)
+                    st[_f] = None
+                    st["_vslot"] = 0          # (whose model the copy will be is not known here)
+                    return st
+                methods["__getstate__"] = _getstate
         if prov != "model" and kind in ("falsy_len", "falsy_bool"):
             # a listener that is falsy when it is attached (an empty journal / recorder, a container subclass)
             methods["__len__" if kind == "falsy_len" else "__bool__"] = (lambda self_: 0) if kind == "falsy_len" else (lambda self_: False)
@@ -1246,10 +1275,14 @@ class Runner:
             step = dict(step, ev=self.resolve_name(sm, step["ev"]))
         self.rt.cur_slot = i
         self.rt.chain = [i]
-        line = {"e": "call", "i": i, "api": api, "ev": step.get("ev", ""),
+        if api == "copy" and step.get("reset"):
+            api_logged = "copy_reset"
+        else:
+            api_logged = api
+        line = {"e": "call", "i": i, "api": api_logged, "ev": step.get("ev", ""),
                 "v": step.get("v", "") if not isinstance(step.get("v"), list) else "",
                 "vs": step["v"] if isinstance(step.get("v"), list) else [step.get("v", "")], "j": step.get("j", 0)}
-        if api in ("send", "send_from", "event", "events_item", "allowed_item", "bound", "activate", "mixin_bound"):
+        if api in ("send", "send_from", "event", "events_item", "allowed_item", "bound", "activate", "mixin_bound") or api_logged == "copy_reset":
             line["gv"] = self.set_gv(step)
             self.rt.budget = step.get("budget", self.scn.get("budget", 0))
         self.rt.emit(line)
@@ -1269,6 +1302,11 @@ class Runner:
                     raise RuntimeError("coroutine returned to the synchronous driver")
             elif api == "write_setter":
                 sm.current_state_value = self.value_of(k, step["v"])
+                r = None
+            elif api == "decorate_bound":
+                # the declaration API used on an INSTANCE's event handle (sm.go.cond(fn)): a declaration belongs in a class
+                # body - this is refused, and in any case it is not a way of changing the class for everybody else
+                getattr(sm, step["ev"]).cond(_never)
                 r = None
             elif api == "write_state":
                 # sm.current_state = <State object>: one of the machine's own states, or - for an unmapped token - a State
@@ -1299,6 +1337,11 @@ class Runner:
             elif api == "copy":
                 j = step["j"]
                 self.rt.mode = "registering"
+                if step.get("reset"):
+                    # the model's copy has no state: the clone is a machine that starts (callbacks run inside the copy call)
+                    self.rt.mode = "live"
+                    self.rt.cur_slot = j
+                    self.rt.chain = [j]
                 try:
                     if step.get("how", "deepcopy") == "deepcopy":
                         clone = copy.deepcopy(sm)
@@ -1312,7 +1355,8 @@ class Runner:
             else:
                 raise ValueError(api)
         except Exception as e:  # noqa: BLE001
-            self.ret_line(i, ("exc", e))
+            # (a copy that starts anew and fails while starting: the failure belongs to the would-be clone)
+            self.ret_line(step["j"] if api == "copy" and step.get("reset") else i, ("exc", e))
             return
         self.ret_line(i, ("ret", r), cmp=api != "activate")
 
